@@ -97,7 +97,9 @@ class BloomInputs(c15.HashPart):
         h = ["xx %s %d" % k for k in c15.KAT]
         for seed in (0, 9001, rng.randrange(2**64)):
             h += ["hash %s %s %d" % (ty, lit, seed) for ty, lit in m]
-        return _chunks(h, 200)
+        # the hash itself on raw bytes of every length 0..64 and around every multiple of 32 up to 257 (block loop boundaries), with
+        # the published known answers: inherited from the C15 hash part
+        return _chunks(h, 200) + c15.HashPart.generate(self, rng, tier)
 
 
 def parts():
